@@ -836,7 +836,7 @@ fn stem_strategy() -> impl Strategy<Value = String> {
         1 => prop::sample::select(vec!["main", "test", "std_", "core_x", "self_", "match", "fn", "type", "async", "model", "serde", "tokio",
                                        "incan_stdlib", "r2d2", "x_1_y", "deps", "build", "examples", "incremental", "target", "src", "out", "lib", "bin"]).prop_map(|s| s.to_string()),
     ]
-    .prop_filter("dep dir / out dir collision", |s| s != "_" && s != "zdep" && s != "out" && s.len() <= 24)
+    .prop_filter("dep dir / out dir collision", |s| s != "_" && s != "zdep" && s != "zdep_flat" && s != "out" && s.len() <= 24)
 }
 
 fn unknown_crate_strategy() -> impl Strategy<Value = String> {
@@ -937,8 +937,13 @@ struct Ctx<'a> {
 impl Ctx<'_> {
     /// Evaluate a batch of cases in parallel and book the results. Returns verdicts (same order).
     fn eval_batch(&mut self, class: &str, cases: &[Case]) -> Vec<Verdict> {
+        self.eval_batch_meta(class, cases, 1)
+    }
+
+    /// `meta_every`: put every n-th manifest of the batch to `cargo metadata` (1 = all).
+    fn eval_batch_meta(&mut self, class: &str, cases: &[Case], meta_every: usize) -> Vec<Verdict> {
         let rendered: Vec<(Project, Expect)> = cases.iter().map(render).collect();
-        let verdicts = eval_all(self.farm, self.cache, &rendered, 1);
+        let verdicts = eval_all(self.farm, self.cache, &rendered, meta_every);
         for (i, ((case, (proj, exp)), v)) in cases.iter().zip(rendered.iter()).zip(verdicts.iter()).enumerate() {
             self.ev.class(class);
             // one or two samples per leg: a case from the first third and one from the last third
@@ -1188,11 +1193,13 @@ fn main() {
     if dep_imports_known {
         cx.ev.exclude_n("undeclared:dep-module:rust-import", unk_trees.iter().filter(|t| t.current().2).count() as u64);
     }
-    cx.eval_batch("sweep:unknown-crate", &unk_cases);
+    // every unknown name gives a distinct manifest; the quick tier asks cargo about every 4th (its verdict on a
+    // manifest with `x = "*"` is not what this leg is about)
+    cx.eval_batch_meta("sweep:unknown-crate", &unk_cases, args.tier.pick(4, 1));
 
     phases.insert("through_sweep_D_s".into(), t0.elapsed().as_secs_f64());
     // ---- sweep E: project names
-    let n_names = if leg("E") { args.tier.pick(80usize, 3000usize) } else { 0 };
+    let n_names = if leg("E") { args.tier.pick(60usize, 3000usize) } else { 0 };
     let name_trees = vcore::gen::batch(&stem_strategy(), &mut runner, n_names);
     let json_part = Part { kind: PartKind::Expr { trig: 0, ctx: 0 }, in_dep: false };
     let name_cases: Vec<Case> = name_trees
@@ -1260,7 +1267,7 @@ fn main() {
     });
     cx.ev.set("random_leg_cells_excluded_by_known_finding", json!(excluded_cells));
     cx.ev.set("random_leg_cells_available", json!(allowed_parts.len()));
-    let n_random = if leg("R") { args.tier.pick(200usize, 12_000usize) } else { 0 };
+    let n_random = if leg("R") { args.tier.pick(150usize, 12_000usize) } else { 0 };
     let forms: Vec<usize> = (0..IMPORT_FORMS.len()).collect();
     let strat = random_case(allowed_parts, !dep_imports_known, forms);
     let mut trees = vcore::gen::batch(&strat, &mut runner, n_random);
